@@ -81,10 +81,14 @@ def run(op, w):
             return ['ok', bits(calc_for(w, op[1]).set_weapon_zero(w['S'][op[2]], U.Yard(25)).raw_value)]
         if kind == 'zerofar':
             return ['ok', bits(calc_for(w, op[1]).set_weapon_zero(w['S'][op[2]], U.Yard(200)).raw_value)]
-        if kind == 'fire':
-            return ['ok', traj_bits(calc_for(w, op[1]).fire(w['S'][op[2]], U.Yard(40), U.Yard(10)).trajectory)]
-        if kind == 'firex':
-            return ['ok', traj_bits(calc_for(w, op[1]).fire(w['S'][op[2]], U.Yard(40), U.Yard(10), True).trajectory)]
+        if kind in ('fire', 'firex'):
+            hr = calc_for(w, op[1]).fire(w['S'][op[2]], U.Yard(40), U.Yard(10), kind == 'firex')
+            res = ['ok', traj_bits(hr.trajectory)]
+            # what the caller does with a RESULT is his business: it must not reach later computations (no shared / remembered result objects)
+            del hr.trajectory[1:]
+            for q in (hr.trajectory[0].distance, hr.trajectory[0].height, hr.trajectory[0].velocity):
+                q << {'Distance': U.Kilometer, 'Velocity': U.KT}[type(q).__name__]
+            return res
         if kind == 'danger':
             r = calc_for(w, op[1]).fire(w['S'][op[2]], U.Yard(40), U.Yard(1), True)
             d = r.danger_space(U.Yard(20), U.Inch(5))
@@ -124,7 +128,9 @@ def run(op, w):
             w['S'][op[1]] = pb.Shot(old.weapon, pb.Ammo(old.ammo.dm, U.FPS(old.ammo.mv >> U.FPS)), atmo=old.atmo)
             return ['ok', H.digest(H.fp(w['S'][op[1]], display=False))]
     except pb.RangeError as e:
-        return ['RangeError', e.reason, traj_bits(e.incomplete_trajectory)]
+        res = ['RangeError', e.reason, traj_bits(e.incomplete_trajectory)]
+        del e.incomplete_trajectory[:]
+        return res
     except pb.ZeroFindingError as e:
         return ['ZeroFindingError', bits(e.zero_finding_error), e.iterations_count]
     raise HarnessError(f'unknown op {op}')
